@@ -98,6 +98,40 @@ def gate_of_int(call: ast.Call, folder):
     return None
 
 
+def int_cannot_raise(call: ast.Call, folder) -> bool:
+    """int(x[, base]) cannot raise: the text is lexically gated AND (the base is a power of two, or the number of decimal
+    digits is bounded - CPython refuses decimal strings longer than sys.get_int_max_str_digits(), 4300 by default -, or a
+    ValueError handler encloses the call)."""
+    g = gate_of_int(call, folder)
+    if g is None:
+        return False
+    rx, mode, group, _lit = g
+    base = 10
+    if len(call.args) > 1:
+        try:
+            base = folder.eval(call.mod, call.args[1])
+        except NotConst:
+            return False
+    if base in (2, 4, 8, 16, 32):
+        return True
+    if group is not None:
+        # a capture group: bounded iff its sub-language is finite (single \d)
+        gl = R.group_lang(rx.pattern, rx.flags, group)
+        ok, _w = R.subset(gl, R.lang("[0-9]{0,64}" if not isinstance(rx.pattern, bytes) else b"[0-9]{0,64}", 0, "fullmatch"))
+        return ok
+    arg = call.args[0]
+    t = norm.text(arg, call)
+    for lit in PC.units(PC.pc(call)):
+        for pat, pos in (("len($X) != $K", False), ("len($X) == $K", True), ("len($X) > $K", False)):
+            b = M.match_text(pat, lit.text)
+            if b is not None and lit.pos == pos and norm.raw(b["X"]) in (t, norm.raw(arg)):
+                return True
+    for _t, h in K.enclosing_try_handlers(call):
+        if any(x in ("ValueError", "Exception") for x in PC.handler_types(h)):
+            return True
+    return False
+
+
 def run(chk):
     repo = chk.repo
     folder = Folder(repo)
